@@ -135,7 +135,8 @@ std::vector<Checkpoint> checkpoints;
 bool Phase(int k) {
   bool quiescent = rec.sched->_queue.Empty() && rec.sched->_sleep_list.empty();
   checkpoints.push_back({k, yaclib::fiber::GetFaultRandomCount(), yaclib::fiber::GetInjectorState(), rec.trace.size()});
-  rec.Tok("|" + std::to_string(k) + (quiescent ? "" : "!notquiescent"));
+  rec.Tok("|" + std::to_string(k) + ":" + std::to_string(checkpoints.back().count) + ":" +
+          std::to_string(checkpoints.back().state) + (quiescent ? "" : "!notquiescent"));
   return true;
 }
 
@@ -609,18 +610,19 @@ void OneRun(int run_index, const std::string& label, const std::vector<Op>* prog
     }
   }
   bool leftover = !sched->_queue.Empty() || !sched->_sleep_list.empty();
+  std::uint64_t time_end = sched->_time;
   yaclib::fault::Scheduler::Set(nullptr);
   rec.sched = nullptr;
   if (finished) {
     delete world;
   }
   std::printf("{\"label\": \"%s\", \"run\": %d, \"seed\": %u, \"finished\": %s, \"leftover\": %s, \"rand_seeded\": %llu, "
-              "\"rand_end\": %llu, \"injected\": %llu, \"time0\": %llu, \"asserts\": [",
+              "\"rand_end\": %llu, \"inj_end\": %u, \"injected\": %llu, \"time0\": %llu, \"time_end\": %llu, \"asserts\": [",
               JsonEscape(label).c_str(), run_index, cfg.seed, finished ? "true" : "false", leftover ? "true" : "false",
               static_cast<unsigned long long>(rand_seeded),
-              static_cast<unsigned long long>(yaclib::fiber::GetFaultRandomCount()),
+              static_cast<unsigned long long>(yaclib::fiber::GetFaultRandomCount()), yaclib::fiber::GetInjectorState(),
               static_cast<unsigned long long>(yaclib::GetInjectedCount() - injected0),
-              static_cast<unsigned long long>(time0));
+              static_cast<unsigned long long>(time0), static_cast<unsigned long long>(time_end));
   for (std::size_t i = 0; i < rec.asserts.size(); ++i) {
     std::printf("%s\"%s\"", i ? ", " : "", JsonEscape(rec.asserts[i]).c_str());
   }
